@@ -14,6 +14,13 @@ pub fn plan05(tier: Tier) -> Plan {
     for p in pgrid() {
         checks.push(qcheck(Mode::C05, p, "qties", dt, 0.0));
     }
+    if tier == Tier::Thorough {
+        // a denser p grid at a smaller depth
+        for p in super::quantile::pgrid_dense() {
+            checks.push(qcheck(Mode::C05, p, "qties", 10, 0.0));
+            checks.push(Box::new(QLasso { mode: Mode::C05, p, max_word: 3, n: 1000 }));
+        }
+    }
     for p in pgrid() {
         checks.push(qcheck(Mode::C05, p, "qdist", dd, 0.0));
     }
@@ -83,6 +90,12 @@ pub fn plan15(tier: Tier) -> Plan {
     let (dt, dd) = if tier == Tier::Quick { (10, 8) } else { (13, 10) };
     for p in pgrid() {
         checks.push(qcheck(Mode::C15, p, "qties", dt, 0.0));
+    }
+    if tier == Tier::Thorough {
+        for p in super::quantile::pgrid_dense() {
+            checks.push(qcheck(Mode::C15, p, "qties", 10, 0.0));
+            checks.push(Box::new(QLasso { mode: Mode::C15, p, max_word: 3, n: 1000 }));
+        }
     }
     for p in pgrid() {
         checks.push(qcheck(Mode::C15, p, "qdist", dd, 0.0));
